@@ -38,6 +38,18 @@ def xml_dump(font, skip=("head",)):
     return out
 
 
+def xml_dump_table(font, tag):
+    import re as _re
+    from fontTools.misc.xmlWriter import XMLWriter
+
+    buf = io.StringIO()
+    w = XMLWriter(buf, newlinestr="\n")
+    font[tag].toXML(w, font)
+    w.close()
+    text = _re.sub(r"<!--.*?-->", "", buf.getvalue(), flags=_re.S)
+    return "\n".join(l.strip() for l in text.splitlines() if l.strip())
+
+
 def roundtrip_problems(data):
     """loads, fully decompiles and re-saves to an equivalent font"""
     probs = []
